@@ -6,12 +6,22 @@ NS = 16  # slices per sweep
 
 def seq(prop, variant, prec, n, grid, forced=0, vkind=0, family='pat', slices=NS, extra=()):
     out = []
-    k = slices if (family in ('pat', 'sympat') and n >= 3) else (min(slices, 12) if family == 'cat' else 1)
+    k = slices if (family in ('pat', 'sympat') and n >= 3) else (min(slices, 12) if family == 'cat' else (min(slices, 20) if family == 'tune' else 1))
     for i in range(k):
         out.append({'engine': 'mcseq/mcseq.c', 'variant': variant, 'prec': prec,
                     'args': ['--prop', prop, '--family', family, '--n', str(n), '--grid', grid, '--forced', str(forced),
                              '--vkind', str(vkind), '--slice', '%d/%d' % (i, k)] + list(extra)})
     return out
+
+
+def tune_jobs(prop, tier):
+    """family tune of mcseq: the complete product of the tuning parameters (maxsuper 1..n x relax 1..4 x panel x rowblk x colblk x threads x static/dynamic
+    storage) on 20 catalogue matrices n = 5..12 (dense and trailing-dense blocks included); every (maxsuper, rowblk) class in processes of its own"""
+    j = []
+    for p in ('d' if tier == 'quick' else 'sdcz'):
+        for vk in ((0,) if tier == 'quick' else (0, 1)):
+            j += seq(prop, 'q', p, 0, 'full', family='tune', vkind=vk, slices=20 if tier != 'quick' else 10)
+    return j
 
 
 def sjob(prop, shape, P, bound, prec='d', variant='s', **cfg):
@@ -173,6 +183,7 @@ def jobs_C02(tier):
         j += seq('C02', 'ql', 'd', 3, 'full', forced=1)
         j += seq('C02', 'qv', 'd', 4, 'quick', forced=0)
     j += sched_catalogue('C02', tier, drv=0, light=True)
+    j += tune_jobs('C02', tier)
     return j
 
 
@@ -194,6 +205,7 @@ def jobs_C09(tier):
         j += seq('C09', 'q', 'd', 4, 'quick', forced=1)
         j += seq('C09', 'ql', 'd', 3, 'full', forced=1)
     j += sched_catalogue('C09', tier, drv=0, light=True)
+    j += tune_jobs('C09', tier)
     # first-time AND refactored factors (added after seeded change C09/1 was missed): every call history up to the depth, wellformed() after each factorization
     for p in ('sdcz' if tier != 'quick' else 'dz'):
         for pat in (0, 1, 2, 3):
@@ -224,6 +236,7 @@ def jobs_C01(tier):
             j += seq('C01', 'q', p, 0, 'full', family='cat')
             j += seq('C01', 'qt', p, 3, 'quick')
     j += sched_catalogue('C01', tier, drv=1, light=True)
+    j += tune_jobs('C01', tier)
     return j
 
 
@@ -245,6 +258,7 @@ def jobs_C05(tier):
         j += seq('C05', 'qh', 'd', 4, 'full', forced=0)
         j += seq('C05', 'ql', 'd', 3, 'full', forced=1)
     j += sched_catalogue('C05', tier, drv=0, light=True)
+    j += tune_jobs('C05', tier)
     return j
 
 
